@@ -267,6 +267,9 @@ func getFakePodIP() string {
 func (pod *Pod) PodExposedTCPConnections() *common.ConnectionSet {
 	res := common.MakeConnectionSet(false)
 	for _, cPort := range pod.Ports {
+		if cPort.Protocol != "" && cPort.Protocol != corev1.ProtocolTCP {
+			continue
+		}
 		protocol := corev1.ProtocolTCP
 		if cPort.Protocol == "" || protocol == corev1.ProtocolTCP {
 			ports := common.MakePortSet(false)
